@@ -1225,8 +1225,8 @@ class Function(Ring):
     def qr_full(self):
         return Function.pushforward(algopy.qr_full, [self])
 
-    def diag(self):
-        return Function.pushforward(algopy.diag, [self])
+    def diag(self, k=0):
+        return Function.pushforward(algopy.diag, [self], Fkwargs={'k': k})
 
     def eigh(self):
         return Function.pushforward(algopy.eigh, [self])
@@ -1258,11 +1258,11 @@ class Function(Ring):
     def conjugate(self):
         return Function.pushforward(algopy.conjugate, [self])
 
-    def tril(self):
-        return Function.pushforward(algopy.tril, [self])
+    def tril(self, k=0):
+        return Function.pushforward(algopy.tril, [self], Fkwargs={'k': k})
 
-    def triu(self):
-        return Function.pushforward(algopy.triu, [self])
+    def triu(self, k=0):
+        return Function.pushforward(algopy.triu, [self], Fkwargs={'k': k})
 
     @classmethod
     def maximum(cls, x, y):
